@@ -8,25 +8,26 @@ import (
 )
 
 var commands = map[string]func([]string){
-	"sweep":     cmdSweep,
-	"mockrun":   cmdMockRun,
-	"window":    cmdWindow,
-	"mocklife":  cmdMockLife,
-	"stability": cmdStability,
-	"registry":  cmdRegistry,
-	"regreplay": cmdRegReplay,
-	"selectors": cmdSelectors,
-	"history":   cmdHistory,
-	"iotrace":   cmdIOTrace,
-	"codec":     cmdCodec,
-	"cli":       cmdCLI,
-	"ip":        cmdIP,
-	"tld":       cmdTLD,
-	"rsa":       cmdRSA,
-	"order":     cmdOrder,
-	"sig":       cmdSig,
-	"pairs":     cmdPairs,
-	"mutate":    cmdMutate,
+	"sweep":      cmdSweep,
+	"mockrun":    cmdMockRun,
+	"window":     cmdWindow,
+	"mocklife":   cmdMockLife,
+	"stability":  cmdStability,
+	"registry":   cmdRegistry,
+	"regreplay":  cmdRegReplay,
+	"selectors":  cmdSelectors,
+	"history":    cmdHistory,
+	"iotrace":    cmdIOTrace,
+	"codec":      cmdCodec,
+	"cli":        cmdCLI,
+	"ip":         cmdIP,
+	"tld":        cmdTLD,
+	"rsa":        cmdRSA,
+	"order":      cmdOrder,
+	"sig":        cmdSig,
+	"pairs":      cmdPairs,
+	"mutate":     cmdMutate,
+	"concurrent": cmdConcurrent,
 }
 
 func main() {
